@@ -2,11 +2,12 @@
 import numpy as np
 
 import common
+import replay_run
 import ticc_util as tu
 from common import show_list
 
 LEVEL = "proof"
-LEAN_PROPS = ["FastTicc.Props.C04", "FastTicc.Props.C10", "FastTicc.Props.C01", "FastTicc.Props.C11", "FastTicc.Props.C04b"]
+LEAN_PROPS = ["FastTicc.Props.C04", "FastTicc.Props.C10", "FastTicc.Props.C01", "FastTicc.Props.C11", "FastTicc.Props.C04b", "FastTicc.Props.FrontEnd"]
 LEAN_HELPERS = ["FastTicc.Proofs.Stack"]
 RULE = ("(a) padding/splitting helpers: every W in [1,12] x label lengths 0..60 (exhaustive) and random joint splits; "
         "(b) complete runs of both front ends on random small data: N in [1,3], W in [1,7] odd and even, K in [2,4], "
@@ -97,6 +98,10 @@ def run(ctx):
         ctx.case(("cfg", repr(sorted(cfg.items()))), nontrivial,
                  sample={k: cfg[k] for k in ("joint", "N", "W", "K", "lens")} if completed <= 4 else None)
     ctx.extra["runs_completed"] = completed
+
+    # ---------------- front-end replay: FrontEnd.single / FrontEnd.joint (Lean) on the raw series of real calls
+    if ctx.replay is None:
+        replay_run.front_end_section(ctx, cfgs, 6 if ctx.quick() else 40)
 
     # ---------------- call SEQUENCES in one process: the same (value-equal, freshly generated) series labelled at a
     # series of window sizes (downward and upward sweeps, repeats), and a joint call followed by a single-series call
